@@ -7,7 +7,7 @@
 
   Helper lemmas live in the namespace `RS.Stale`.
 -/
-import RSVerif.Model.Codec
+import RSVerif.Model.State
 import RSVerif.Proofs.Sched
 
 namespace RS
@@ -19,22 +19,69 @@ variable {V : Type} [ShardAlg V]
 
 /-! ### arithmetic of `npow2` / `nextMultipleOf` -/
 
+/-- `npow2` on the supported range: a power of two, not below the argument -/
+theorem npow2_spec (x : Nat) (h : x ≤ 65536) : ∃ n, npow2 x = 2 ^ n ∧ x ≤ 2 ^ n := by
+  unfold npow2
+  by_cases h0 : x ≤ 1
+  · rw [if_pos h0]; exact ⟨0, rfl, h0⟩
+  rw [if_neg h0]
+  by_cases h1 : x ≤ 2
+  · rw [if_pos h1]; exact ⟨1, rfl, h1⟩
+  rw [if_neg h1]
+  by_cases h2 : x ≤ 4
+  · rw [if_pos h2]; exact ⟨2, rfl, h2⟩
+  rw [if_neg h2]
+  by_cases h3 : x ≤ 8
+  · rw [if_pos h3]; exact ⟨3, rfl, h3⟩
+  rw [if_neg h3]
+  by_cases h4 : x ≤ 16
+  · rw [if_pos h4]; exact ⟨4, rfl, h4⟩
+  rw [if_neg h4]
+  by_cases h5 : x ≤ 32
+  · rw [if_pos h5]; exact ⟨5, rfl, h5⟩
+  rw [if_neg h5]
+  by_cases h6 : x ≤ 64
+  · rw [if_pos h6]; exact ⟨6, rfl, h6⟩
+  rw [if_neg h6]
+  by_cases h7 : x ≤ 128
+  · rw [if_pos h7]; exact ⟨7, rfl, h7⟩
+  rw [if_neg h7]
+  by_cases h8 : x ≤ 256
+  · rw [if_pos h8]; exact ⟨8, rfl, h8⟩
+  rw [if_neg h8]
+  by_cases h9 : x ≤ 512
+  · rw [if_pos h9]; exact ⟨9, rfl, h9⟩
+  rw [if_neg h9]
+  by_cases h10 : x ≤ 1024
+  · rw [if_pos h10]; exact ⟨10, rfl, h10⟩
+  rw [if_neg h10]
+  by_cases h11 : x ≤ 2048
+  · rw [if_pos h11]; exact ⟨11, rfl, h11⟩
+  rw [if_neg h11]
+  by_cases h12 : x ≤ 4096
+  · rw [if_pos h12]; exact ⟨12, rfl, h12⟩
+  rw [if_neg h12]
+  by_cases h13 : x ≤ 8192
+  · rw [if_pos h13]; exact ⟨13, rfl, h13⟩
+  rw [if_neg h13]
+  by_cases h14 : x ≤ 16384
+  · rw [if_pos h14]; exact ⟨14, rfl, h14⟩
+  rw [if_neg h14]
+  by_cases h15 : x ≤ 32768
+  · rw [if_pos h15]; exact ⟨15, rfl, h15⟩
+  rw [if_neg h15]
+  by_cases h16 : x ≤ 65536
+  · rw [if_pos h16]; exact ⟨16, rfl, h16⟩
+  rw [if_neg h16]
+  omega
+
 theorem npow2_pow2 (x : Nat) (h : x ≤ 65536) : ∃ n, npow2 x = 2 ^ n := by
-  generalize hm : npow2 x = m
-  unfold npow2 at hm
-  repeat' split at hm
-  all_goals first
-    | exact ⟨0, hm.symm⟩ | exact ⟨1, hm.symm⟩ | exact ⟨2, hm.symm⟩ | exact ⟨3, hm.symm⟩
-    | exact ⟨4, hm.symm⟩ | exact ⟨5, hm.symm⟩ | exact ⟨6, hm.symm⟩ | exact ⟨7, hm.symm⟩
-    | exact ⟨8, hm.symm⟩ | exact ⟨9, hm.symm⟩ | exact ⟨10, hm.symm⟩ | exact ⟨11, hm.symm⟩
-    | exact ⟨12, hm.symm⟩ | exact ⟨13, hm.symm⟩ | exact ⟨14, hm.symm⟩ | exact ⟨15, hm.symm⟩
-    | exact ⟨16, hm.symm⟩ | omega
+  obtain ⟨n, hn, _⟩ := npow2_spec x h
+  exact ⟨n, hn⟩
 
 theorem le_npow2 (x : Nat) (h : x ≤ 65536) : x ≤ npow2 x := by
-  generalize hm : npow2 x = m
-  unfold npow2 at hm
-  repeat' split at hm
-  all_goals omega
+  obtain ⟨n, hn, hx⟩ := npow2_spec x h
+  rw [hn]; exact hx
 
 theorem npow2_pos (x : Nat) (h : x ≤ 65536) : 0 < npow2 x := by
   obtain ⟨n, hn⟩ := npow2_pow2 x h
@@ -345,4 +392,139 @@ theorem decodeLow_congr (s : Sched) (lw : Array Nat) (k r : Nat) (recv : Nat →
   simp only []
   rw [decodePrepare_congr _ recv _ mem mem' hsz hag]
 
+/-! ### 2. low-rate encoder -/
+
+namespace Stale
+
+/-- the part of `encodeLow` after the copies -/
+def lowRest (s : Sched) (k r : Nat) (a : Array V) : Array V :=
+  let chunk := npow2 k
+  let q := r / chunk
+  let a := (List.range q).foldl
+    (fun a c => fft s a (c * chunk) chunk chunk (c * chunk + chunk)) a
+  let last := r % chunk
+  if last > 0 then fft s a (q * chunk) chunk last (q * chunk + chunk) else a
+
+theorem encodeLow_eq (s : Sched) (k r : Nat) (mem : Array V) :
+    encodeLow s k r mem =
+      lowRest s k r
+        ((List.range ((r + npow2 k - 1) / npow2 k - 1)).foldl
+          (fun a i => copyWithin a 0 ((i + 1) * npow2 k) (npow2 k))
+          (ifft s (zeroRange mem k (npow2 k)) 0 (npow2 k) k 0)) := rfl
+
+theorem supportsLow_bounds {k r : Nat} (h : supportsLow k r = true) :
+    0 < k ∧ 0 < r ∧ k < 65536 ∧ r < 65536 := by
+  simp only [supportsLow, Bool.and_eq_true, decide_eq_true_eq] at h
+  omega
+
+theorem supportsHigh_bounds {k r : Nat} (h : supportsHigh k r = true) :
+    0 < k ∧ 0 < r ∧ k < 65536 ∧ r < 65536 := by
+  simp only [supportsHigh, Bool.and_eq_true, decide_eq_true_eq] at h
+  omega
+
+end Stale
+
+/-- the low-rate encoder only depends on the `k` inserted originals: `[k, chunk)` is zero-filled
+    and `[chunk, work_count)` is overwritten by the copies before anything reads it -/
+theorem encodeLow_congr (s : Sched) (k r : Nat) (mem mem' : Array V)
+    (hsup : supportsLow k r = true) (hsz : mem.size = lowEncWorkCount k r)
+    (hsz' : mem'.size = mem.size) (hag : ∀ p, p < k → rd mem p = rd mem' p) :
+    encodeLow s k r mem = encodeLow s k r mem' := by
+  obtain ⟨hk, hr, hk', _⟩ := supportsLow_bounds hsup
+  obtain ⟨n, hn⟩ := npow2_pow2 k (by omega)
+  have hkc := le_npow2 k (by omega)
+  have hc := npow2_pos k (by omega)
+  have H0 : Stale.Rel (lowEncWorkCount k r) k mem mem' := ⟨hsz, by rw [hsz', hsz], hag⟩
+  have H1 := zeroRange_rel (m' := npow2 k) (lo := k) (hi := npow2 k) H0
+    (fun p hp hr => by omega)
+  have H2 := ifft_congr s k 0 hn (Nat.le_of_eq (Nat.zero_add _)) H1
+  have H3 := foldl_range_rel (fun i => Stale.Rel (lowEncWorkCount k r) ((i + 1) * npow2 k))
+    (fun (a : Array V) i => copyWithin a 0 ((i + 1) * npow2 k) (npow2 k))
+    ((r + npow2 k - 1) / npow2 k - 1)
+    (fun i a b _ H => by
+      have := copyWithin_rel H (count := npow2 k) (by rw [Nat.succ_mul]; omega)
+      rw [Nat.succ_mul (i + 1)]
+      exact this)
+    (by rw [Nat.zero_add, Nat.one_mul]; exact H2)
+  rw [encodeLow_eq, encodeLow_eq, H3.eq (nextMultipleOf_le hr hc)]
+
+/-! ### 1. high-rate encoder -/
+
+namespace Stale
+
+def highStage1 (s : Sched) (k r : Nat) (mem : Array V) : Array V :=
+  ifft s (zeroRange mem (min k (npow2 r)) (npow2 r)) 0 (npow2 r) (min k (npow2 r)) (npow2 r)
+
+def highLoop (s : Sched) (k r : Nat) (a : Array V) : Array V :=
+  (List.range (k / npow2 r - 1)).foldl (fun a i => highFullChunk s (npow2 r) a (i + 1)) a
+
+def highTailRest (s : Sched) (k r : Nat) (a : Array V) : Array V :=
+  xorWithin
+    (ifft s a (k / npow2 r * npow2 r) (npow2 r) (k % npow2 r) (k / npow2 r * npow2 r + npow2 r))
+    0 (k / npow2 r * npow2 r) (npow2 r)
+
+theorem encodeHigh_eq (s : Sched) (k r : Nat) (mem : Array V) :
+    encodeHigh s k r mem =
+      fft s
+        (if k > npow2 r then
+          (if k % npow2 r > 0 then
+            highTailRest s k r
+              (zeroRange (highLoop s k r (highStage1 s k r mem))
+                (k / npow2 r * npow2 r + k % npow2 r) (highLoop s k r (highStage1 s k r mem)).size)
+          else highLoop s k r (highStage1 s k r mem))
+        else highStage1 s k r mem) 0 (npow2 r) r 0 := rfl
+
+end Stale
+
+/-- the high-rate encoder only depends on the `k` inserted originals: the tail of the first
+    chunk and the tail of the final partial chunk are zero-filled before they are read, and
+    nothing else lies beyond position `k` -/
+theorem encodeHigh_congr (s : Sched) (k r : Nat) (mem mem' : Array V)
+    (hsup : supportsHigh k r = true) (hsz : mem.size = highEncWorkCount k r)
+    (hsz' : mem'.size = mem.size) (hag : ∀ p, p < k → rd mem p = rd mem' p) :
+    encodeHigh s k r mem = encodeHigh s k r mem' := by
+  obtain ⟨hk, hr, _, hr'⟩ := supportsHigh_bounds hsup
+  obtain ⟨n, hn⟩ := npow2_pow2 r (by omega)
+  have hc := npow2_pos r (by omega)
+  have H0 : Stale.Rel (highEncWorkCount k r) k mem mem' := ⟨hsz, by rw [hsz', hsz], hag⟩
+  have H1 := zeroRange_rel (m' := max k (npow2 r)) (lo := min k (npow2 r)) (hi := npow2 r) H0
+    (fun p hp hr => by omega)
+  have H2 : Stale.Rel (highEncWorkCount k r) (max k (npow2 r))
+      (highStage1 s k r mem) (highStage1 s k r mem') :=
+    ifft_congr s _ _ hn (by omega) H1
+  rw [encodeHigh_eq, encodeHigh_eq]
+  by_cases hkc : k > npow2 r
+  · rw [if_pos hkc, if_pos hkc]
+    have H3 : Stale.Rel (highEncWorkCount k r) k
+        (highLoop s k r (highStage1 s k r mem)) (highLoop s k r (highStage1 s k r mem')) := by
+      unfold highLoop
+      refine foldl_range_rel (fun _ => Stale.Rel (highEncWorkCount k r) k) _ _
+        (fun i a b hi H => ?_) (H2.mono (by omega))
+      have h1 : (i + 1 + 1) * npow2 r ≤ k / npow2 r * npow2 r :=
+        Nat.mul_le_mul_right _ (by omega)
+      have h2 := Nat.div_mul_le_self k (npow2 r)
+      rw [Nat.succ_mul] at h1
+      unfold highFullChunk
+      exact xorWithin_rel (ifft_congr s _ _ hn (by omega) H) (by omega) (by omega)
+    by_cases hl : k % npow2 r > 0
+    · rw [if_pos hl, if_pos hl]
+      have e : k / npow2 r * npow2 r + k % npow2 r = k := by
+        rw [Nat.mul_comm]; exact Nat.div_add_mod k (npow2 r)
+      rw [e, H3.sa, H3.sb]
+      have H4 := zeroRange_rel (m' := highEncWorkCount k r) (lo := k)
+        (hi := highEncWorkCount k r) H3 (fun p hp hr => by omega)
+      rw [H4.eq (Nat.le_refl _)]
+    · rw [if_neg hl, if_neg hl]
+      have e : highEncWorkCount k r = k := by
+        unfold highEncWorkCount nextMultipleOf; rw [if_pos (by omega)]
+      rw [H3.eq (by omega)]
+  · rw [if_neg hkc, if_neg hkc]
+    have e : highEncWorkCount k r = npow2 r := nextMultipleOf_small hk (by omega)
+    rw [H2.eq (by omega)]
+
 end RS
+
+#print axioms RS.decodeHigh_congr
+#print axioms RS.decodeLow_congr
+#print axioms RS.encodeLow_congr
+#print axioms RS.encodeHigh_congr
